@@ -130,7 +130,10 @@ def _has_secret(sx, doc, secret):
 EXC_CLASSES = [RuntimeError, ValueError, KeyError, ZeroDivisionError, AssertionError]
 
 
-@harness('C09', params=['fault', 'fault+detail', 'exception', 'return'],
+BUILTIN_ARGS = ['plain', ('users', 42), ('only',), 5, {'k': 'v'}, ['a', 'b']]
+
+
+@harness('C09', params=['fault', 'fault+detail', 'exception', 'return', 'builtin'],
          functions=['spyne.application.Application.process_request', 'spyne.server._base.ServerBase.get_out_object',
                     'spyne.protocol.dictdoc.hier.HierDictDocument.serialize',
                     'spyne.protocol.dictdoc.hier.HierDictDocument._fault_to_doc', 'spyne.model.fault.Fault.to_dict'],
@@ -153,6 +156,13 @@ def funnel(sx, kind):
         msg = sx.text('msg', 4)
         detail = {'why': sx.text('detail', 2), 'n': {'deep': 1}} if kind == 'fault+detail' else None
         BEHAVE.update(kind='fault', cls=Fault, args=(code, msg, '', detail))
+    elif kind == 'builtin':
+        # built-in fault classes constructed the way user code does, with various kinds of identifying objects
+        fcls = sx.choose('fault_class', [ResourceNotFoundError, ResourceAlreadyExistsError, ValidationError,
+                                         InvalidCredentialsError, ArgumentError, RequestTooLongError])
+        takes_object = fcls in (ResourceNotFoundError, ResourceAlreadyExistsError, ValidationError)
+        arg = sx.choose('fault_arg', BUILTIN_ARGS if takes_object else BUILTIN_ARGS[:1])
+        BEHAVE.update(kind='fault', cls=fcls, args=(arg,))
     elif kind == 'exception':
         secret = sx.text('secret', 6, alphabet='sekrit0123')
         BEHAVE.update(kind='exc', cls=sx.choose('exc_class', EXC_CLASSES), secret=secret)
@@ -168,6 +178,15 @@ def funnel(sx, kind):
     if not isinstance(doc, (list, tuple)) or len(doc) != 1 or not isinstance(doc[0], dict):
         return False
     d = doc[0]
+    if kind == 'builtin':
+        # the client sees the class's own code (never the generic Server fault) and its message names the object
+        want_code = fcls.CODE
+        shown = arg if isinstance(arg, str) else None
+        ok = [entered == 1, err.faultcode == want_code, d.get('faultcode') == want_code,
+              isinstance(d.get('faultstring'), str)]
+        if fcls in (ResourceNotFoundError, ResourceAlreadyExistsError) :
+            ok.append(repr(arg) in d.get('faultstring', '') or str(arg) in d.get('faultstring', ''))
+        return sx.And(*ok)
     if kind.startswith('fault'):
         ok = [entered == 1, sx.eq(err.faultcode, code), sx.eq(err.faultstring, msg),
               sx.eq(d.get('faultcode'), code), sx.eq(d.get('faultstring'), msg), 'work' not in str(list(d.keys()))]
